@@ -35,8 +35,7 @@ def padded_headers(base: List[Tuple[bytes, bytes]], target: int, name: bytes = b
 
 
 class RogueH2:
-    def __init__(self, ack_settings: bool = False, upgrade: bool = False, enable_push: Optional[bool] = None,
-                 max_streams: Optional[int] = None) -> None:
+    def __init__(self, ack_settings: bool = False, upgrade: bool = False, enable_push: Optional[bool] = None) -> None:
         self.tx = h2.connection.H2Connection(config=h2.config.H2Configuration(
             client_side=True, header_encoding=None, validate_outbound_headers=False, normalize_outbound_headers=False))
         self.tx.local_settings.update({h2.settings.SettingCodes.ENABLE_PUSH: 0})
@@ -44,15 +43,10 @@ class RogueH2:
             self.tx.initiate_upgrade_connection()
         else:
             self.tx.initiate_connection()
-        # what this client tells the server about server push (a second SETTINGS frame; `None`: h2's client defaults, i.e.
-        # ENABLE_PUSH = 1 and MAX_CONCURRENT_STREAMS = 100 - the `local_settings.update` above is never acknowledged and so never sent)
-        more = {}
+        # what this client tells the server about server push (a second SETTINGS frame; `None`: h2's client default, i.e.
+        # ENABLE_PUSH = 1 - the `local_settings.update` above is never acknowledged and so never sent)
         if enable_push is not None:
-            more[h2.settings.SettingCodes.ENABLE_PUSH] = int(enable_push)
-        if max_streams is not None:
-            more[h2.settings.SettingCodes.MAX_CONCURRENT_STREAMS] = int(max_streams)
-        if more:
-            self.tx.update_settings(more)
+            self.tx.update_settings({h2.settings.SettingCodes.ENABLE_PUSH: int(enable_push)})
         self.promises: List[dict] = []               # every PUSH_PROMISE: parent stream, promised stream, request header list
         self.ack_settings = ack_settings
         self._extra = b""
